@@ -47,8 +47,6 @@ def cells(tier):
             continue
         if q and (nf + pto + len(kind) + len(flav) + len(proc) + abs(pid)) % 5 and not (sch == "FFN0" and pto == 2 and kind == "F2" and pid == 11):
             continue
-        if not q and (nf + pto + len(kind) + len(flav) + len(proc) + abs(pid)) % 3 == 1:
-            continue  # thorough: two thirds of the product (the full product takes > 90 min single-threaded)
         out.append(dict(obs=f"{kind}_{flav}", process=proc, pid=pid, scheme=sch, nf=nf, ZMq=tuple(bool(z) for z in zm), pto=pto,
                         a_first=bool((len(out) % 2))))
     return out
